@@ -130,8 +130,10 @@ def runDeposit (_inp : List String) (out : String) : Option Res :=
     else
       let quiet := !single || (rcp == 0 && claimer == -5000)
       (ok && quiet, okIds, if quiet || note != "" then note else s!"rejected claim moved funds: {rec}")) (true, [], "")
-  some { agree := sc.ok, monitor := ok && sc.ok && sc.invOk && !sc.halted && !sc.rejected, nontrivial := !okIds.isEmpty, model := "",
-         note := if note != "" then note else sc.note }
+  -- no report on a bridge-withdrawal query is ever accepted (those aggregates are written by the bridge module alone)
+  let wr := (out.splitOn " ;; ").filter (fun r => r.startsWith "WR " && (getF (fieldsOf r) "res") == some "ok")
+  some { agree := sc.ok, monitor := ok && sc.ok && sc.invOk && !sc.halted && !sc.rejected && wr.isEmpty, nontrivial := !okIds.isEmpty, model := "",
+         note := if note != "" then note else if !wr.isEmpty then s!"a report on a bridge-withdrawal query was accepted: {wr.headD ""}" else sc.note }
 
 /-- C17 on the implementation's own observations:
 (a) every honest proposal (built by the real PrepareProposal from the commit, untampered) is accepted and executes;
